@@ -237,6 +237,9 @@ pub fn shrink(plan: &TwinPlan) -> Vec<TwinPlan> {
         ops: plan.ops.clone(),
         walk_every: 0,
         audit: false,
+        instances: 1,
+        skews_us: vec![],
+        route: vec![],
     };
     seq::shrink(&sp)
         .into_iter()
@@ -468,6 +471,9 @@ pub fn shrink_iso(plan: &IsoPlan) -> Vec<IsoPlan> {
         ops: plan.ops.clone(),
         walk_every: 0,
         audit: false,
+        instances: 1,
+        skews_us: vec![],
+        route: vec![],
     };
     seq::shrink(&sp)
         .into_iter()
